@@ -381,6 +381,34 @@ mod proofs {
 			}
 		}
 	}
+	// the same comparison for longer directories whose numbers all fit one varint byte (< 128): up to 4 entries, so that
+	// "offset 0 = directly after the PREVIOUS entry" is exercised after an entry that points back to shared data
+	// harness: kind=bounded bound="directories of at most 4 entries whose varints are single bytes (all values < 128)" tier=thorough props=C16,C01,C19 fn=EntriesV3::from_blob timeout=3600 mem=44
+	#[kani::proof]
+	#[kani::unwind(18)]
+	fn directory_decode_matches_spec_small_values() {
+		let mut data = [0u8; BCAP];
+		let cnt: usize = kani::any(); kani::assume(cnt <= 4);
+		data[0] = cnt as u8;
+		let mut i = 0; while i < 16 { let b: u8 = kani::any(); kani::assume(b < 0x80); data[1 + i] = b; i += 1; }
+		let n: usize = kani::any(); kani::assume(n <= 17);
+		let blob = Blob { data, n };
+		let r = EntriesV3::from_blob(&blob);
+		// reference (PMTiles v3 spec): columns of cnt ids (deltas), run lengths, lengths, offsets (0 = previous offset + previous length, else value - 1)
+		let complete = n >= 1 + 4 * cnt;
+		let mut ok = complete;
+		let mut ids = [0u64; 4]; let mut offs = [0u64; 4];
+		let mut last = 0u64;
+		let mut k = 0; while k < 4 { if k < cnt && complete { last += data[1 + k] as u64; ids[k] = last; } k += 1; }
+		k = 0; while k < 4 { if k < cnt && complete { let d = data[1 + 3 * cnt + k] as u64;
+			if d == 0 { if k == 0 { ok = false; } else { offs[k] = offs[k - 1] + data[1 + 2 * cnt + (k - 1)] as u64; } } else { offs[k] = d - 1; } } k += 1; }
+		match r {
+			Err(_) => assert!(!ok),
+			Ok(e) => { assert!(ok && e.entries.len() == cnt);
+				k = 0; while k < 4 { if k < cnt { let x = e.entries[k];
+					assert!(x.tile_id == ids[k] && x.run_length == data[1 + cnt + k] as u32 && x.range.length == data[1 + 2 * cnt + k] as u64 && x.range.offset == offs[k]); } k += 1; } }
+		}
+	}
 	// harness: kind=canary expect=fail tier=quick props=C01,C16,C19 timeout=1200
 	#[kani::proof]
 	#[kani::unwind(34)]
